@@ -5,7 +5,7 @@ ID = "C12"
 BIN = "c12"
 PROOF_MODULES = ["Compute.Props.C12"]
 REQUIRED_THEOREMS = ["Cv.C12.broadcast_total", "Cv.C12.broadcast_shape", "Cv.C12.broadcast_entry"]
-RULE = ("value-pattern stratum (all-zero / all-negative-zero / constant / all-ones / tiny-distinct / within-epsilon-of-one / round-off-residual / tiny-constant operands on the left, right or both sides x every shape pair with rows, cols in 1..4, compatible and incompatible x operators x operand kinds); special-value stratum (every classifier leaf x operator x operand kind with NaN / inf / signed zeros / subnormals in the data and as the 1x1 operand); size-boundary shapes (7..9, 15..17, 31..33, 40, products around 1024) against row / column / scalar partners in both orders; every shape pair with rows, cols in 1..6 (1296 pairs): Matrix∘Matrix with 4 of the 16 (operator, ownership form) combinations per pair in the quick tier (each operator once, forms rotating) and all 16 in the thorough tier, Matrix∘Vector and Vector∘Matrix with every operator for every eligible pair (ownership form rotating in quick, all four in thorough), "
+RULE = ("operand-coincidence stratum (column against row with bit-identical data up to 40x40, a matrix row / column equal to the row / column operand with infinities, signed zeros, huge and subnormal entries, A op A; every operator, operand kind and both operand orders); value-pattern stratum (all-zero / all-negative-zero / constant / all-ones / tiny-distinct / within-epsilon-of-one / round-off-residual / tiny-constant operands on the left, right or both sides x every shape pair with rows, cols in 1..4, compatible and incompatible x operators x operand kinds); special-value stratum (every classifier leaf x operator x operand kind with NaN / inf / signed zeros / subnormals in the data and as the 1x1 operand); size-boundary shapes (7..9, 15..17, 31..33, 40, products around 1024) against row / column / scalar partners in both orders; every shape pair with rows, cols in 1..6 (1296 pairs): Matrix∘Matrix with 4 of the 16 (operator, ownership form) combinations per pair in the quick tier (each operator once, forms rotating) and all 16 in the thorough tier, Matrix∘Vector and Vector∘Matrix with every operator for every eligible pair (ownership form rotating in quick, all four in thorough), "
         "with distinct non-commuting entries, plus random shapes up to 40x40; non-trivial = distinct (op, kind, shapes) class")
 EXHAUSTIVE = {"quick": False, "thorough": False}
 NOT_PROVED = [
@@ -146,6 +146,40 @@ def gen(rng, tier):
                                 if r1 == 1:
                                     lines.append(mk(op, "vm", own, 1, c1, r2, c2, d1, d2)); npat += 1
     cover["value_pattern_lines"] = npat
+    # operand-coincidence stratum (round-11 seeds C12x, C12y): shortcuts keyed on the two operands holding THE SAME data bit for bit -
+    # a column against a row with identical entries (pairwise "ratio table", sizes up to 40), a matrix row / column equal to the row /
+    # column operand (reference-row subtraction) with infinities, signed zeros, huge and subnormal entries in it, and A op A.
+    INF = float("inf")
+    CPOOL = [INF, -INF, -0.0, 0.0, 1e308, -1e308, 5e-324, 0.7, 4.69, -3.25, 1.0 / 3.0, 2.5e-310]   # no NaN: a NaN breaks bit-equality tests
+    ncoin = 0
+    for n in ([2, 3, 7, 8, 9, 12, 16, 17, 33, 40] if tier == "quick" else [2, 3, 5, 7, 8, 9, 10, 12, 15, 16, 17, 24, 31, 32, 33, 40]):
+        d = data(rng, n, 0.5)
+        for oi, op in enumerate(OPS):
+            own = (n + oi) % 4
+            lines.append(mk(op, "mm", own, n, 1, 1, n, d, d)); lines.append(mk(op, "mm", (own + 1) % 4, 1, n, n, 1, d, d))
+            lines.append(mk(op, "mv", own, n, 1, 1, n, d, d)); lines.append(mk(op, "vm", own, 1, n, n, 1, d, d)); ncoin += 4
+    for (r, c) in ([(2, 3), (3, 4), (4, 4), (9, 8), (17, 5)] if tier == "quick" else [(2, 2), (2, 3), (3, 4), (4, 4), (5, 2), (9, 8), (8, 9), (17, 5), (6, 33)]):
+        for k in sorted({0, r - 1, r // 2}):
+            row = [CPOOL[(j * 5 + k + c) % len(CPOOL)] for j in range(c)]
+            mat = []
+            for i in range(r):
+                mat += row if i == k else [CPOOL[(i * 7 + j * 3 + 1) % len(CPOOL)] if (i + j) % 3 == 0 else float(i * c + j) + 0.25 for j in range(c)]
+            for oi, op in enumerate(OPS):
+                own = (r + c + k + oi) % 4
+                lines.append(mk(op, "mm", own, r, c, 1, c, mat, row)); lines.append(mk(op, "mm", (own + 2) % 4, 1, c, r, c, row, mat))
+                lines.append(mk(op, "mv", own, r, c, 1, c, mat, row)); lines.append(mk(op, "vm", own, 1, c, r, c, row, mat)); ncoin += 4
+        for k in sorted({0, c - 1}):
+            col = [CPOOL[(i * 5 + k + r) % len(CPOOL)] for i in range(r)]
+            mat = []
+            for i in range(r):
+                mat += [col[i] if j == k else (CPOOL[(i * 7 + j * 3 + 2) % len(CPOOL)] if (i + j) % 3 == 0 else float(i * c + j) + 0.75) for j in range(c)]
+            for oi, op in enumerate(OPS):
+                own = (r + c + k + oi + 1) % 4
+                lines.append(mk(op, "mm", own, r, c, r, 1, mat, col)); lines.append(mk(op, "mm", (own + 2) % 4, r, 1, r, c, col, mat)); ncoin += 2
+        same = [CPOOL[(i * 5 + 3) % len(CPOOL)] for i in range(r * c)]
+        for oi, op in enumerate(OPS):
+            lines.append(mk(op, "mm", (r + oi) % 4, r, c, r, c, same, same)); ncoin += 1
+    cover["operand_coincidence_lines"] = ncoin
     nrand = 300 if tier == "quick" else 6000
     for _ in range(nrand):
         r, c = rng.randint(1, 40), rng.randint(1, 40)
